@@ -189,10 +189,19 @@ impl<T> HalfLock<T> {
         self.update_seen(&mut seen_zero);
         // By switching the generation to the other slot, we make sure the currently active starts
         // draining while the other will start filling up.
-        self.generation.fetch_add(1, Ordering::SeqCst); // Overflow is fine.
+        let mut gen = self.generation.fetch_add(1, Ordering::SeqCst).wrapping_add(1); // Overflow is fine.
 
         let mut iter = 0usize;
         while !seen_zero.iter().all(|s| *s) {
+            // Readers enter only the slot of the current generation, so only the other one is
+            // guaranteed to drain. If that one has already been seen empty and we still wait for the
+            // current one (readers that picked it before an earlier switch are still inside),
+            // switch once more; otherwise a steady stream of overlapping readers entering the
+            // current slot could keep us here forever. This happens at most once per barrier.
+            if seen_zero[(gen % 2) ^ 1] && !seen_zero[gen % 2] {
+                gen = self.generation.fetch_add(1, Ordering::SeqCst).wrapping_add(1);
+            }
+
             iter = iter.wrapping_add(1);
 
             // Be somewhat less aggressive while looping, switch to the other threads if possible.
